@@ -141,6 +141,7 @@ func (e *Enc) call(f *frame, c *ssa.CallCommon, instr *ssa.Call, pos token.Pos) 
 		}
 		e.abstract("invoke:" + full)
 		e.havocAll("invoke " + full)
+		e.havocClosureCells(args, map[*ssa.Function]bool{})
 		return finish(freshResults(c.Method.Name()))
 	}
 
@@ -234,6 +235,7 @@ func (e *Enc) call(f *frame, c *ssa.CallCommon, instr *ssa.Call, pos token.Pos) 
 	}
 	e.abstract("dynamic-call:" + typeKey(c.Value.Type()))
 	e.havocAll("dynamic call")
+	e.havocClosureCells(args, map[*ssa.Function]bool{})
 	return freshResults("dyn")
 }
 
@@ -342,7 +344,37 @@ func (e *Enc) callStatic0(f *frame, fn *ssa.Function, args []Val, bind []Val, po
 	}
 	e.abstract("call-without-contract:" + name)
 	e.havocAll("call " + name)
+	e.havocClosureCells(args, map[*ssa.Function]bool{})
 	return freshResults(fn.Name())
+}
+
+// havocClosureCells: an unknown callee may run the closures it is handed any
+// number of times; the local variables those closures capture (kept as cells
+// because their address never escapes) change with it.
+func (e *Enc) havocClosureCells(vals []Val, seen map[*ssa.Function]bool) {
+	for _, v := range vals {
+		fnv, ok := v.(Fn)
+		if !ok || fnv.F == nil || seen[fnv.F] {
+			continue
+		}
+		seen[fnv.F] = true
+		for _, b := range fnv.Bind {
+			switch x := b.(type) {
+			case Ptr:
+				if x.K == pCell && x.Cell != nil {
+					t := deref(x.Cell.Type())
+					nv := e.freshVal(t, "cc_"+x.Cell.Comment)
+					e.assumeLoaded(t, nv)
+					e.cur.cells[x.Cell] = nv
+					if e.writesC != nil {
+						e.writesC[x.Cell] = true
+					}
+				}
+			case Fn:
+				e.havocClosureCells([]Val{x}, seen)
+			}
+		}
+	}
 }
 
 // pureResultFacts: fmt.Errorf / errors.New never return nil.
@@ -387,6 +419,10 @@ func (e *Enc) applyContract(f *frame, con *Contract, display string, args []Val,
 	old := e.cur.clone()
 	// havoc (the locations named in modifies are resolved in the pre-state)
 	env.st = old
+	if con.ModAll || con.ModHeap {
+		// a callee that may change anything may also run the closures it is given
+		e.havocClosureCells(args, map[*ssa.Function]bool{})
+	}
 	if con.ModAll {
 		e.havocAll("modifies * of " + display)
 		// "modifies *" includes the ghost state (an unknown callee, in contrast, cannot touch it)
@@ -1094,6 +1130,7 @@ func (e *Enc) callSel(f *frame, sel FnSel, args []Val, pos token.Pos, pack func(
 		default:
 			e.abstract("dynamic-call")
 			e.havocAll("dynamic call")
+			e.havocClosureCells(args, map[*ssa.Function]bool{})
 			r = freshResults("dyn")
 		}
 		// the continuation is reached only where the callee returned normally
@@ -1126,6 +1163,30 @@ func (e *Enc) callAssert(f *frame, disp string, n int, ca CallAssert, env *Env, 
 		saved := e.noObl
 		e.noObl = 0
 		defer func() { e.noObl = saved }()
+	}
+	// vacuity guard: an assertion at a call site nothing reaches proves nothing
+	// (a frame expanded several times, or several clauses at one site: one
+	// reachable encounter is enough)
+	cname := fmt.Sprintf("%s/cover.site.%s#%d", f.name, disp, n)
+	if e.dry == 0 {
+		if e.siteCovered == nil {
+			e.siteCovered = map[string]int{}
+		}
+		k := e.siteCovered[cname]
+		e.siteCovered[cname]++
+		if k < 4 {
+			nm := cname
+			if k > 0 {
+				nm = fmt.Sprintf("%s~%d", cname, k+1)
+			}
+			saved := e.noObl
+			e.noObl = 0
+			e.cover(nm, tTrue)
+			e.noObl = saved
+			if m := len(e.obls); m > 0 && e.obls[m-1].Kind == "cover" {
+				e.obls[m-1].Group = cname
+			}
+		}
 	}
 	n0 := len(e.obls)
 	g := e.evalBool(env, ca.Clause)
